@@ -1,6 +1,8 @@
 package kaisim
 
 // C01 / C02: capacity invariants evaluated on the API store only, after every simulator step.
+// A violation is reported at the step where the excess of a (node, resource) first appears or
+// grows, so that it is attributed to the step that caused it.
 
 import (
 	"fmt"
@@ -11,10 +13,21 @@ import (
 
 type CapacityOracle struct {
 	BaseOracle
-	prop string // "C01" or "C02"
+	prop       string // "C01" or "C02"
+	prevExcess map[string]float64
+	prevGroups map[string]map[string]bool // node -> groups known after the previous step
 }
 
 func (o *CapacityOracle) Prop() string { return o.prop }
+
+func (o *CapacityOracle) grew(key string, excess float64) bool {
+	if o.prevExcess == nil {
+		o.prevExcess = map[string]float64{}
+	}
+	prev := o.prevExcess[key]
+	o.prevExcess[key] = excess
+	return excess > prev+1e-9
+}
 
 func (o *CapacityOracle) AfterOp(r *Run, op Op) {
 	occ := Occupancy(r.API)
@@ -23,59 +36,94 @@ func (o *CapacityOracle) AfterOp(r *Run, op Op) {
 		names = append(names, n)
 	}
 	sort.Strings(names)
+	if o.prevGroups == nil {
+		o.prevGroups = map[string]map[string]bool{}
+	}
+	var cycleBinds map[string]int
+	if op.Kind == "cycle" {
+		cycleBinds = map[string]int{}
+		for _, d := range r.Sched.Obs.CycleDecisions(r.cycle) {
+			if d.Kind == "bind" && d.Err == "" {
+				cycleBinds[d.Node]++
+			}
+		}
+	}
 	for _, name := range names {
 		oc := occ[name]
 		alloc := oc.Node.Status.Allocatable
+		newGroups := 0
+		for g := range oc.Groups {
+			if !o.prevGroups[name][g] {
+				newGroups++
+			}
+		}
+		terminating := 0
+		for _, p := range r.API.Pods() {
+			if p.Spec.NodeName == name && p.DeletionTimestamp != nil && !podTerminated(p) {
+				terminating++
+			}
+		}
 		if o.prop == "C01" {
 			cpu := alloc.Cpu().MilliValue()
 			mem := alloc.Memory().Value()
 			pods := alloc.Pods().Value()
-			if oc.CPUm > cpu {
+			if ex := float64(oc.CPUm - cpu); o.grew(name+"/cpu", ex) && ex > 0 {
 				r.Fail("C01", "cpu", "node %s cpu %dm > allocatable %dm after op %v; pods=%v", name, oc.CPUm, cpu, op, oc.Members)
 			}
-			if oc.MemB > mem {
+			if ex := float64(oc.MemB - mem); o.grew(name+"/mem", ex) && ex > 0 {
 				r.Fail("C01", "memory", "node %s memory %d > allocatable %d after op %v; pods=%v", name, oc.MemB, mem, op, oc.Members)
 			}
-			if oc.Pods > pods {
-				r.Fail("C01", "podslots", "node %s pod slots %d > allocatable %d after op %v; pods=%v groups=%d", name, oc.Pods, pods, op, oc.Members, len(oc.Groups))
+			if ex := float64(oc.Pods - pods); o.grew(name+"/pods", ex) && ex > 0 {
+				// attribute: is the excess explained by the pod slots of reservation pods of GPU groups
+				// opened in this very cycle (known finding), or not?
+				rule := "podslots"
+				if op.Kind == "cycle" && newGroups > 0 && int(ex) <= newGroups {
+					if cycleBinds[name] >= 2 {
+						rule = "podslots_reservation_samecycle"
+					} else if terminating > 0 && int(ex) <= terminating {
+						rule = "podslots_reservation_releasing"
+					}
+				}
+				r.Fail("C01", rule, "node %s pod slots %d > allocatable %d after op %v; pods=%v groups=%d new_groups_this_cycle=%d binds_this_cycle=%d terminating=%d",
+					name, oc.Pods, pods, op, oc.Members, len(oc.Groups), newGroups, cycleBinds[name], terminating)
 			}
 			gpus := nodeGPUCount(oc.Node)
-			if oc.GPUs+int64(len(oc.Groups)) > gpus {
+			if ex := float64(oc.GPUs + int64(len(oc.Groups)) - gpus); o.grew(name+"/gpus", ex) && ex > 0 {
 				r.Fail("C01", "gpus", "node %s whole GPUs %d + shared devices %d > GPU count %d after op %v; pods=%v", name, oc.GPUs, len(oc.Groups), gpus, op, oc.Members)
 			}
-			for k, v := range oc.Ext {
+			for _, k := range sortedKeys(oc.Ext) {
 				q := alloc[corev1.ResourceName(k)]
-				if v > q.Value() {
-					r.Fail("C01", "extended", "node %s %s %d > allocatable %d after op %v", name, k, v, q.Value(), op)
+				if ex := float64(oc.Ext[k] - q.Value()); o.grew(name+"/"+k, ex) && ex > 0 {
+					r.Fail("C01", "extended", "node %s %s %d > allocatable %d after op %v", name, k, oc.Ext[k], q.Value(), op)
 				}
 			}
 		}
 		if o.prop == "C02" {
 			gpus := nodeGPUCount(oc.Node)
-			if oc.GPUs+int64(len(oc.Groups)) > gpus {
-				r.Fail("C02", "devices", "node %s whole GPUs %d + shared devices %d > GPU count %d after op %v", name, oc.GPUs, len(oc.Groups), gpus, op)
+			if ex := float64(oc.GPUs + int64(len(oc.Groups)) - gpus); o.grew(name+"/devices", ex) && ex > 0 {
+				r.Fail("C02", "devices", "node %s whole GPUs %d + shared devices %d > GPU count %d after op %v; pods=%v", name, oc.GPUs, len(oc.Groups), gpus, op, oc.Members)
 			}
 			gm, hasMem := nodeGPUMem(oc.Node)
-			gs := make([]string, 0, len(oc.Groups))
-			for g := range oc.Groups {
-				gs = append(gs, g)
-			}
-			sort.Strings(gs)
-			for _, g := range gs {
+			for _, g := range sortedKeys(oc.Groups) {
 				grp := oc.Groups[g]
 				if len(grp.Sharers) > 1 {
 					r.Probe("group_shared_by_2plus")
 				}
 				if hasMem {
-					if !almostLE(grp.MemMi, float64(gm)) {
+					if ex := grp.MemMi - float64(gm); o.grew(name+"/gm/"+g, ex) && !almostLE(grp.MemMi, float64(gm)) {
 						r.Fail("C02", "group_memory", "node %s group %s memory %.1f > device memory %d; sharers=%v after op %v", name, g, grp.MemMi, gm, grp.Sharers, op)
 					}
 				}
-				if !almostLE(grp.Portion, 1.0) {
+				if ex := grp.Portion - 1.0; o.grew(name+"/gp/"+g, ex) && !almostLE(grp.Portion, 1.0) {
 					r.Fail("C02", "group_portion", "node %s group %s portions %.4f > 1; sharers=%v after op %v", name, g, grp.Portion, grp.Sharers, op)
 				}
 			}
 		}
+		gs := map[string]bool{}
+		for g := range oc.Groups {
+			gs[g] = true
+		}
+		o.prevGroups[name] = gs
 	}
 	if o.prop == "C02" {
 		// a pod asking N devices is attached to N distinct groups
@@ -87,17 +135,17 @@ func (o *CapacityOracle) AfterOp(r *Run, op Op) {
 			if !d.Shared {
 				continue
 			}
-			groups := PodGroups(p)
-			if p.Spec.NodeName == "" {
-				groups = nil
-				for _, br := range r.API.BindRequests() {
-					if br.Spec.PodName == p.Name && !BRTerminallyFailed(br) {
-						groups = br.Spec.SelectedGPUGroups
-					}
+			var groups []string
+			for _, br := range r.API.BindRequests() {
+				if br.Spec.PodName == p.Name && !BRTerminallyFailed(br) {
+					groups = br.Spec.SelectedGPUGroups
 				}
-				if groups == nil {
+			}
+			if groups == nil {
+				if p.Spec.NodeName == "" {
 					continue
 				}
+				groups = PodGroups(p)
 			}
 			seen := map[string]bool{}
 			for _, g := range groups {
